@@ -515,7 +515,7 @@ Lemma replay_okb_sound_all : forall KS r ops os S, replay_okb KS r S ops os = 1 
 Proof.
   intros KS r ops os S. unfold replay_okb, ReplaySpec. rewrite <- replay_core_sound_all, Forall_forall, <- forallb_forall.
   destruct (replay_core KS r S ops os) as [|[p|p|]]; destruct (forallb obs_exact os);
-    split; intros H; try discriminate H; try (destruct H as [H1 H2]; try discriminate H1; try discriminate H2); auto.
+    (split; [intros H; try discriminate H; auto | intros H; destruct H as [H1 H2]; try discriminate H1; try discriminate H2; auto]).
 Qed.
 
 (* ------------------------------------------------------------------ *)
